@@ -29,12 +29,19 @@ def main():
         dst = os.path.join(tmp, "repo")
         try:
             shutil.copytree("/repo", dst, ignore=shutil.ignore_patterns(".git"))
-            p = os.path.join(dst, m["file"])
-            s = open(p).read()
-            if s.count(m["old"]) != 1:
-                rows.append((m["name"], "PATCH-DOES-NOT-APPLY(%d)" % s.count(m["old"]), ""))
+            edits = m.get("edits") or [{"file": m["file"], "old": m["old"], "new": m["new"]}]
+            bad = None
+            for ed in edits:
+                p = os.path.join(dst, ed["file"])
+                s = open(p).read()
+                if s.count(ed["old"]) != 1:
+                    bad = "PATCH-DOES-NOT-APPLY(%d)" % s.count(ed["old"])
+                    break
+                open(p, "w").write(s.replace(ed["old"], ed["new"]))
+            if bad:
+                rows.append((m["name"], bad, ""))
+                print("%-60s %-8s %s" % rows[-1], flush=True)
                 continue
-            open(p, "w").write(s.replace(m["old"], m["new"]))
             r = subprocess.run(["go", "build", "./..."], cwd=dst, env=ENV, capture_output=True, text=True)
             if r.returncode != 0:
                 rows.append((m["name"], "DOES-NOT-BUILD", r.stderr[-300:]))
